@@ -185,9 +185,13 @@ def gen_cross(rng):
         rule = "FREQ=YEARLY;BYMONTH=%s;BYMONTHDAY=%s;SHIFT=%d" % (
             ",".join(map(str, sorted(rng.sample(range(1, 13), rng.randint(1, 3))))), ",".join(map(str, sorted(rng.sample(range(1, 29), rng.randint(1, 2))))),
             rng.choice([200, 300, 365, -200, -300, -365, 100, -100]))
-    else:
+    elif k < 0.9:
         rule = "FREQ=MONTHLY;BYMONTHDAY=%s;SHIFT=%d" % (",".join(map(str, sorted(rng.sample(range(1, 29), rng.randint(1, 3))))),
                                                       rng.choice([20, 31, 40, 59, -20, -31, -40, -59]))
+    else:
+        # month ends and month starts pushed onto the same business day: the copies belong to neighbouring periods
+        rule = "FREQ=MONTHLY;BYMONTHDAY=%s;SHIFT=%s" % (rng.choice(["1,-1", "-1,1,2", "1,-1,-2", "1,2,-1,-2"]),
+                                                      rng.choice(["1B", "-1B", "2B", "0B", "-0B", "1", "-1", "2"]))
     r = {"freq": rule.split(";")[0].split("=")[1]}
     if rng.random() < 0.3:
         r["count"] = rng.choice([64, 65, 128, 129, 200])
